@@ -30,11 +30,11 @@ func c33Str(m any) {
 
 func c33LightRequest(level int) *ref.C14Buf {
 	b := &ref.C14Buf{}
-	bs := func(n int, what string) { b.Bytes(ref.C14Tame(n*level, 0), what) }
+	bs := func(n int, what string) { b.Bytes(ref.C14Tame((n+3)*level, 0), what) } // empty or >= 4 bytes, see ref.C14Tame
 	vec := func(n int, what string) {
 		b.Len(n*level, what+"-count")
 		for i := 0; i < n*level; i++ {
-			b.Bytes(ref.C14Tame(i+1, 0), what)
+			b.Bytes(ref.C14Tame(i+4, 0), what)
 		}
 	}
 	opt := func(some bool, f func()) {
@@ -64,7 +64,7 @@ func c33LightRequest(level int) *ref.C14Buf {
 
 func c33LightResponse(level int) *ref.C14Buf {
 	b := &ref.C14Buf{}
-	bs := func(n int, what string) { b.Bytes(ref.C14Tame(n*level, 0), what) }
+	bs := func(n int, what string) { b.Bytes(ref.C14Tame((n+3)*level, 0), what) } // empty or >= 4 bytes, see ref.C14Tame
 	bs(3, "call-proof")
 	bs(2, "read-proof")
 	hs := ref.C14SmallHeaders()
@@ -79,13 +79,13 @@ func c33LightResponse(level int) *ref.C14Buf {
 	bs(1, "changes-max")
 	b.Len(level, "changes-proof-count")
 	for i := 0; i < level; i++ {
-		b.Bytes(ref.C14Tame(i+2, 0), "changes-proof")
+		b.Bytes(ref.C14Tame(i+4, 0), "changes-proof")
 	}
 	b.Len(level, "roots-count")
 	for i := 0; i < level; i++ {
 		b.Len(i+1, "roots-inner-count")
 		for k := 0; k <= i; k++ {
-			b.Bytes(ref.C14Tame(k+1, 0), "pair-first").Bytes(ref.C14Tame(2, 0), "pair-second")
+			b.Bytes(ref.C14Tame(k+4, 0), "pair-first").Bytes(ref.C14Tame(5, 0), "pair-second")
 		}
 	}
 	bs(2, "roots-proof")
@@ -98,7 +98,7 @@ func c33NetworkDecoders() []ref.C33Decoder {
 		annCat = append(annCat, ref.C33Valid{Name: fmt.Sprintf("announce %s best=%t", h, i%2 == 0), Enc: ref.C14RefHeader(h).Bool(i%2 == 0)})
 	}
 	hsCat = append(hsCat, ref.C33Valid{Name: "handshake", Enc: (&ref.C14Buf{}).U8(1).U32(77).Raw(ref.C14Tame(32, 1)...).Raw(ref.C14Tame(32, 2)...)})
-	for _, exts := range [][][]byte{{}, {ref.C14Tame(3, 1)}, {nil, ref.C14Tame(64, 2)}, {ref.C14Tame(1, 0), ref.C14Tame(7, 3), ref.C14Tame(2, 0)}} {
+	for _, exts := range [][][]byte{{}, {ref.C14Tame(4, 1)}, {nil, ref.C14Tame(64, 2)}, {ref.C14Tame(5, 0), ref.C14Tame(7, 3), ref.C14Tame(4, 0)}} {
 		txCat = append(txCat, ref.C33Valid{Name: fmt.Sprintf("%d transactions", len(exts)), Enc: ref.C14RefBody(exts)})
 	}
 	for level := 0; level <= 2; level++ {
